@@ -214,6 +214,14 @@ namespace
     BinaryStream bs;
     bool saved = false;
     Impl() : comm(Dist::Comm::world()), cp(comm, LAFEM::SerialConfig(false, false)) {}
+    /// configuration through the setter instead of the constructor argument
+    explicit Impl(bool) : comm(Dist::Comm::world()), cp(comm)
+    {
+      LAFEM::SerialConfig cfg;
+      cfg.set_elements_compression(LAFEM::CompressionModes::elements_off);
+      cfg.set_indices_compression(LAFEM::CompressionModes::indices_off);
+      cp.set_config(cfg);
+    }
 
     int slot_of(const std::string& name)
     {
@@ -500,10 +508,19 @@ int main(int argc, char** argv)
         c.count("file_checkpoints");
         continue;
       }
-      Impl a;
+      Impl a_ctor, a_set(true);
+      Impl& a = (var == 1) ? a_set : a_ctor; // variant 1: control configured by set_config()
       for(int s = 0; s < 3; ++s) { a.slot[s].kind = kinds[cfg][s]; a.slot[s].set_variant(s, (var + s) % NVAR); }
       for(int n = 0; n < 3; ++n) if(to_slot[n] >= 0) a.slot[to_slot[n]].add_to(a.cp, NAMES[n]);
       a.cp.save(fn);
+      {
+        // the BinaryStream written by a control configured the other way is byte-identical
+        Impl& o = (var == 1) ? a_ctor : a_set;
+        for(int s = 0; s < 3; ++s) { o.slot[s].kind = kinds[cfg][s]; o.slot[s].set_variant(s, (var + s) % NVAR); }
+        for(int n = 0; n < 3; ++n) if(to_slot[n] >= 0) o.slot[to_slot[n]].add_to(o.cp, NAMES[n]);
+        a.cp.save(a.bs); o.cp.save(o.bs);
+        c.check(a.bs.container() == o.bs.container(), "checkpoint.set_config: stream differs from the one of a constructor-configured control", "");
+      }
       Impl b;
       for(int s = 0; s < 3; ++s) { b.slot[s].kind = kinds[cfg][s]; b.slot[s].set_variant(s, (var + s + 1) % NVAR); }
       b.cp.load(fn);
